@@ -74,7 +74,12 @@ func FamDataIface(thorough bool) Family {
 		g := Group{Name: "assert from " + short(d.name), Decls: ifaceDecls}
 		for _, a := range ds {
 			show := fmt.Sprintf(a.show, "v")
-			g.Items = append(g.Items, Item{Key: "iface|assert|" + short(d.name) + "->" + short(a.name), Desc: "e = " + short(d.expr) + "; v, ok := e.(" + short(a.name) + ")",
+			// classes: assertion to A from a value of that very type, and from any other dynamic type
+			key := "iface|assert|other->" + short(a.name)
+			if a.name == d.name {
+				key = "iface|assert|same->" + short(a.name)
+			}
+			g.Items = append(g.Items, Item{Key: key, Desc: "e = " + short(d.expr) + "; v, ok := e.(" + short(a.name) + ")",
 				Stmts: fmt.Sprintf("\t\tvar e interface{} = %s\n\t\tv, ok := e.(%s)\n\t\tprintln(ok, %s)", d.expr, a.name, show)})
 			if a.name == d.name {
 				g.Items = append(g.Items, Item{Key: "iface|assert-single|" + short(d.name), Desc: "e.(" + short(a.name) + ") succeeds",
@@ -137,6 +142,10 @@ func FamDataIface(thorough bool) Family {
 			}
 		}
 		vals := [][2]string{{"int32(1)", "int32(2)"}, {"\"a\"", "\"b\""}, {"\"ab\"", "\"a\" + \"b\""}, {"IP@G@{1, 2}", "IP@G@{1, 3}"}, {"IP@G@{1, 2}", "IP@G@{1, 2}"}, {"&IP@G@{1, 2}", "&IP@G@{1, 2}"}, {"[2]int32{1, 2}", "[2]int32{1, 2}"}, {"[2]int32{1, 2}", "[2]int32{2, 1}"}, {"float64(0)", "-float64(0)"}, {"uint64(1)<<63", "uint64(1)<<63"}, {"int64(-1)", "int64(4294967295)"}, {"true", "false"}, {"IM@G@(1)", "int32(1)"}}
+		for _, v := range [][2]string{{"int(1)", "int32(1)"}, {"uint(1)", "uint32(1)"}, {"uintptr(1)", "uint(1)"}, {"rune(1)", "int32(1)"}, {"byte(1)", "uint8(1)"}} {
+			g.Items = append(g.Items, Item{Key: "iface|equal-values|same representation, " + v[0] + " vs " + v[1], Desc: v[0] + " == " + v[1],
+				Stmts: fmt.Sprintf("\t\tvar x, y interface{} = %s, %s\n\t\tprintln(x == y, x != y)", v[0], v[1])})
+		}
 		for _, v := range vals {
 			g.Items = append(g.Items, Item{Key: "iface|equal-values", Desc: short(v[0]) + " == " + short(v[1]),
 				Stmts: fmt.Sprintf("\t\tvar x, y interface{} = %s, %s\n\t\tprintln(x == y, x != y)\n\t\tvar z interface{} = x\n\t\tprintln(z == x)", v[0], v[1])})
@@ -159,6 +168,7 @@ func FamDataIface(thorough bool) Family {
 	add("box|value is copied into the interface", "", "\t\tv := IP@G@{1, 2}\n\t\tvar e interface{} = v\n\t\tv.x = 50\n\t\tw := e.(IP@G@)\n\t\tprintln(w.x, v.x)\n\t\tarr := [2]int32{1, 2}\n\t\te = arr\n\t\tarr[0] = 9\n\t\tprintln(e.([2]int32)[0])\n\t\tn := int32(3)\n\t\te = n\n\t\tn = 4\n\t\tprintln(e.(int32), n)")
 	add("box|slice and map keep reference semantics", "", "\t\ts := []int32{1, 2}\n\t\tvar e interface{} = s\n\t\ts[0] = 7\n\t\tprintln(e.([]int32)[0])\n\t\tm := map[int32]int32{}\n\t\te = m\n\t\tm[1] = 2\n\t\tprintln(len(e.(map[int32]int32)))")
 	add("box|interface in slice, map value and struct field", "type hb@G@ struct{ v interface{} }\n", "\t\txs := []interface{}{int32(1), \"a\", nil, ip@G@, 2.5, true}\n\t\tn := 0\n\t\tfor _, x := range xs {\n\t\t\tif x == nil {\n\t\t\t\tn += 100\n\t\t\t}\n\t\t\tif _, ok := x.(string); ok {\n\t\t\t\tn += 10\n\t\t\t}\n\t\t\tif _, ok := x.(int32); ok {\n\t\t\t\tn++\n\t\t\t}\n\t\t}\n\t\tprintln(n, len(xs))\n\t\tm := map[string]interface{}{\"a\": int32(1), \"b\": \"s\"}\n\t\tv, ok := m[\"a\"].(int32)\n\t\tprintln(v, ok, m[\"c\"] == nil)\n\t\th := hb@G@{uint8(7)}\n\t\tu, ok := h.v.(uint8)\n\t\tprintln(int64(u), ok)")
-	add("box|constants default types", "", "\t\tvar e interface{} = 1\n\t\t_, ok1 := e.(int)\n\t\t_, ok2 := e.(int32)\n\t\te = 'x'\n\t\t_, ok3 := e.(rune)\n\t\t_, ok4 := e.(int32)\n\t\te = 1.5\n\t\t_, ok5 := e.(float64)\n\t\te = \"s\"\n\t\t_, ok6 := e.(string)\n\t\tprintln(ok1, ok2, ok3, ok4, ok5, ok6)")
+	add("box|constants default types", "", "\t\tvar e interface{} = 1\n\t\t_, ok1 := e.(int)\n\t\t_, ok2 := e.(int64)\n\t\te = 'x'\n\t\t_, ok3 := e.(rune)\n\t\t_, ok4 := e.(uint8)\n\t\te = 1.5\n\t\t_, ok5 := e.(float64)\n\t\t_, ok6 := e.(float32)\n\t\te = \"s\"\n\t\t_, ok7 := e.(string)\n\t\tprintln(ok1, ok2, ok3, ok4, ok5, ok6, ok7)")
+	add("alias identity|rune is int32, byte is uint8", "", "\t\tvar e interface{} = 'x'\n\t\tv, ok := e.(int32)\n\t\tprintln(ok, v)\n\t\te = int32(7)\n\t\tr, ok := e.(rune)\n\t\tprintln(ok, int64(r))\n\t\te = byte(200)\n\t\tu, ok := e.(uint8)\n\t\tprintln(ok, int64(u))\n\t\te = uint8(3)\n\t\tb, ok := e.(byte)\n\t\tprintln(ok, int64(b))\n\t\tswitch e.(type) {\n\t\tcase rune:\n\t\t\tprintln(\"rune\")\n\t\tcase byte:\n\t\t\tprintln(\"byte\")\n\t\t}")
 	return f
 }
